@@ -242,9 +242,12 @@ func (b *BaseStore) InitBaseStore(ipfs coreiface.CoreAPI, identity *identityprov
 	b.index = options.Index(b.Identity().PublicKey)
 	b.muIndex.Unlock()
 
+	// the replicator's load events carry no store address and the store's bus
+	// is usually shared by every store of the instance: give each replicator a
+	// bus of its own, so that a store only ever reacts to its own replicator
 	b.replicator, err = replicator.NewReplicator(b, options.ReplicationConcurrency, &replicator.Options{
 		Logger:   b.logger,
-		EventBus: b.eventBus,
+		EventBus: eventbus.NewBus(),
 		Tracer:   b.tracer,
 	})
 	if err != nil {
@@ -1142,6 +1145,11 @@ func (b *BaseStore) storeListener(topic iface.PubSubTopic) error {
 			}
 
 			evt := e.(stores.EventWrite)
+			// the bus may be shared with other stores: only announce our own writes
+			if evt.Address == nil || evt.Address.String() != b.Address().String() {
+				continue
+			}
+
 			go func() {
 				// @TODO(gfanton): HandleEventWrite trigger a
 				// publish that is a blocking call if no peers
